@@ -248,6 +248,11 @@ structure Defects where
       transaction that committed since its begin inserted one of them.  Keys that came into being another way (UPDATE
       of a key column) are not covered, a key whose row was deleted again still counts -/
   commitChecksInsertedKeysOnly : Bool := false
+  /-- (catalog, `Model/Ddl.lean`) the name index holds one entry per name: CREATE TABLE is refused with a conflict while
+      the entry of that name was written by another transaction the creator does not see and that has not rolled back
+      (still open, or committed after the creator's snapshot) — first creator wins where the specification lets both
+      create and refuses the second committer -/
+  createRefusedWhileNameHeld : Bool := false
   deriving Repr
 
 def Defects.none : Defects := {}
